@@ -393,6 +393,11 @@ def build_unit(u, outpath, probe_fn=None, drop_fns=()):
                     b.gen("\n")
                 elif it["kind"] == "fn":
                     emit_fn(b, u, m, d, items, idx, info, used_fns, probe_fn)
+                elif it["kind"] in ("const",):
+                    b.gen("#[verus_verify]\n")
+                    emit_range(b, d, m.file, it["start"], it["end"], [], m.renames)
+                    b.gen("\n")
+                    info["items"].append("%s::%s" % (m.name, it["path"]))
                 elif it["kind"] in ("struct", "enum"):
                     ins = [(it["core_start"], -1, "\n#[verus_verify]\n", ("gen", "verus_verify"))]
                     # keep (filtered) derive attrs: they live in the attr range
